@@ -79,6 +79,8 @@ pub struct WhereClauseBuilder {
     types: Vec<Type>,
     preds: Vec<WherePredicate>,
     gps: GenericParamSet,
+    /// What `Self` is replaced with in the types and predicates that are added (see `expand_self_to`).
+    self_ty: Option<Type>,
 }
 
 impl WhereClauseBuilder {
@@ -92,7 +94,13 @@ impl WhereClauseBuilder {
             types: Vec::new(),
             preds,
             gps: GenericParamSet::new(generics),
+            self_ty: None,
         }
+    }
+    /// For impls whose `Self` is not the type itself (`impl Add for &X`) and for the free function generated for `Eq`:
+    /// `Self` in a field type or in a `bound(..)` argument means the type, so it is written out.
+    pub fn expand_self_to(&mut self, this_ty: &Type) {
+        self.self_ty = Some(this_ty.clone());
     }
 
     pub fn push_bounds(&mut self, bounds: &Bounds) -> bool {
@@ -109,6 +117,10 @@ impl WhereClauseBuilder {
     pub fn build(self, f: impl Fn(&Type) -> TokenStream) -> TokenStream {
         let mut ws = Vec::new();
         for ty in &self.types {
+            let ty = &match &self.self_ty {
+                Some(to) => crate::syn_utils::expand_self(ty, to),
+                None => ty.clone(),
+            };
             // `A + B: Trait` and `&'a A + B` are not well-formed, `(A + B): Trait` and `&'a (A + B)` are.
             let ty = match ty {
                 Type::TraitObject(t) if (t.bounds.len() > 1 || t.bounds.trailing_punct()) => syn::parse_quote!((#ty)),
@@ -123,6 +135,9 @@ impl WhereClauseBuilder {
             ws.push(f(&ty));
         }
         for mut p in self.preds {
+            if let Some(to) = &self.self_ty {
+                p = crate::syn_utils::expand_self(&p, to);
+            }
             // (the same for a predicate given through `bound(..)`: `bound(<T>::Assoc: Trait)`)
             crate::syn_utils::paren_qself_without_trait(&mut p);
             ws.push(quote!(#p));
